@@ -1,6 +1,6 @@
 //! Construction of the combinator under test ("root") for every family x container.
 
-use crate::leaf::{harvest_out, Harvest, Out, PlainFut, SimFut, SimStream, UnitStream, Val};
+use crate::leaf::{harvest_out, Harvest, Out, PlainFut, SimFut, SimStream, Unit, UnitStream, Val};
 use crate::world::{Family, NodeId, Res};
 use futures_concurrency::future::{FutureExt as _, Join, Race, RaceOk, TryJoin};
 use futures_concurrency::stream::{Chain, Merge, StreamExt as _, Zip};
@@ -107,9 +107,10 @@ impl<F: Future> AggRoot<F> {
         Box::new(AggRoot(Box::pin(f)))
     }
 }
-impl<F, E> Root for AggRoot<F>
+impl<F, T, E> Root for AggRoot<F>
 where
-    F: Future<Output = Result<Val, E>>,
+    F: Future<Output = Result<T, E>>,
+    T: Harvest,
     E: Deref,
     E::Target: AsRef<[Val]>,
 {
@@ -135,6 +136,12 @@ fn pf(n: NodeId) -> PlainFut<Val> {
 }
 fn ptf(n: NodeId) -> PlainFut<Result<Val, Val>> {
     PlainFut::new(n)
+}
+fn uf(n: NodeId) -> SimFut<Unit> {
+    SimFut::new(n)
+}
+fn utf(n: NodeId) -> SimFut<Result<Unit, Val>> {
+    SimFut::new(n)
 }
 fn ust(n: NodeId) -> UnitStream {
     UnitStream::new(n)
@@ -192,8 +199,32 @@ pub fn tuple_min(fam: Family) -> usize {
 }
 
 /// Build a flat combinator of `fam` over leaves `k` in container `cont`.
-pub fn build_flat(fam: Family, cont: Cont, k: &[NodeId], plain: bool) -> Box<dyn Root> {
+pub fn build_flat(fam: Family, cont: Cont, k: &[NodeId], plain: bool, unit: bool) -> Box<dyn Root> {
     let n = k.len();
+    if unit {
+        // future families over children with a zero-sized output type
+        return match (fam, cont) {
+            (Family::Join, Cont::Tuple) if n == 0 => FutRoot::new(Join::join(())),
+            (Family::Join, Cont::Tuple) => with_tuple!(n, k, uf, t => FutRoot::new(Join::join(t)) as Box<dyn Root>),
+            (Family::Join, Cont::Array) => with_array!(n, k, uf, t => FutRoot::new(Join::join(t)) as Box<dyn Root>),
+            #[cfg(not(feature = "cfg-nostd"))]
+            (Family::Join, Cont::Vec) => FutRoot::new(Join::join(k.iter().map(|&i| uf(i)).collect::<Vec<_>>())),
+            (Family::TryJoin, Cont::Tuple) if n == 0 => FutRoot::new(TryJoin::try_join(())),
+            (Family::TryJoin, Cont::Tuple) => with_tuple!(n, k, utf, t => FutRoot::new(TryJoin::try_join(t)) as Box<dyn Root>),
+            (Family::TryJoin, Cont::Array) => with_array!(n, k, utf, t => FutRoot::new(TryJoin::try_join(t)) as Box<dyn Root>),
+            #[cfg(not(feature = "cfg-nostd"))]
+            (Family::TryJoin, Cont::Vec) => FutRoot::new(TryJoin::try_join(k.iter().map(|&i| utf(i)).collect::<Vec<_>>())),
+            (Family::Race, Cont::Tuple) => with_tuple!(n, k, uf, t => FutRoot::new(Race::race(t)) as Box<dyn Root>),
+            (Family::Race, Cont::Array) => with_array!(n, k, uf, t => FutRoot::new(Race::race(t)) as Box<dyn Root>),
+            #[cfg(not(feature = "cfg-nostd"))]
+            (Family::Race, Cont::Vec) => FutRoot::new(Race::race(k.iter().map(|&i| uf(i)).collect::<Vec<_>>())),
+            (Family::RaceOk, Cont::Tuple) => with_tuple!(n, k, utf, t => AggRoot::new(RaceOk::race_ok(t)) as Box<dyn Root>),
+            (Family::RaceOk, Cont::Array) => with_array!(n, k, utf, t => AggRoot::new(RaceOk::race_ok(t)) as Box<dyn Root>),
+            #[cfg(not(feature = "cfg-nostd"))]
+            (Family::RaceOk, Cont::Vec) => AggRoot::new(RaceOk::race_ok(k.iter().map(|&i| utf(i)).collect::<Vec<_>>())),
+            (fam, cont) => panic!("harness: no unit-output builder for {:?} x {:?} (n={})", fam, cont, n),
+        };
+    }
     if plain {
         // children without drop glue (future families, tuple arity / array length as for the tracked handles)
         return match (fam, cont) {
